@@ -60,6 +60,7 @@ pub fn add_probe(w: &mut World, round: u32) -> bool {
     w.cfg.max_crashes = 0;
     w.cfg.fault_tier = 0;
     w.stall_pct = 0;
+    w.cooperative = true;
     !added
 }
 
